@@ -31,7 +31,7 @@ def plan(tier, seed):
     shards = []
     for cls in ("midpoint", "random", "large", "negzero"):
         shards += [{"cls": cls, "seed": seed, "shard": i, "n": 60} for i in range(k)]
-    shards += [{"cls": "mcp", "seed": seed, "shard": i, "n": 4} for i in range(3 if tier == "quick" else 60)]
+    shards += [{"cls": "mcp", "seed": seed, "shard": i, "n": 4} for i in range(8 if tier == "quick" else 80)]
     return shards
 
 
